@@ -7,3 +7,5 @@ import RexModel.Props.C13
 #print axioms Rex.C13.record_rows_untouched
 #print axioms Rex.C13.record_write_out_of_bounds_dropped
 #print axioms Rex.C13.max_records_keeps_first
+#print axioms Rex.C13.C13_recorded_steps_are_faithful
+#print axioms Rex.C13.C13_recorded_states_chain
